@@ -173,6 +173,7 @@ class Fn:
         GENCACHE[s.path]=s.gen
         s.is_sample = s.path.endswith('::sample') and (allg-set(s.gen)-{'N'})=={'R'}
         s.rng_params=[]
+        if s.is_sample: s.sig.mutrefs=[]; s.sig.params=[]
         if not s.is_sample and (allg-set(s.gen)-{'N'} or ('N' in allg and 'to_f64' in allt and 'ToPrimitive' in allt)):
             raise Unsupported('generic type parameters')
         if s.targs: GENCACHE[s.path+'@@'+'|'.join(s.targs)]=[]
